@@ -315,6 +315,19 @@ class FaultyStorage(Storage):
         self.n = 0
         self.trace: list = []
         self.fired = None
+        # a transparent wrapper: whatever plain (non-callable) public attributes the wrapped provider's
+        # class declares - capabilities a cache may consult - read the same on the wrapper
+        import inspect
+        for name in dir(type(inner)):
+            if name.startswith('_'):
+                continue
+            static = inspect.getattr_static(type(inner), name)
+            if callable(static) or isinstance(static, (property, staticmethod, classmethod)):
+                continue
+            try:
+                setattr(self, name, getattr(inner, name))
+            except Exception:  # noqa
+                pass
 
     def point(self, what):
         self.n += 1
